@@ -5,14 +5,19 @@ import PEval.Lemmas.DatasetExample
 PARTIAL by nature: the nuScenes devkit is an external contract (DESIGN 4.6). The theorems below are
 structural laws of the loader model `PEval.Dataset` (tables as lists of records, token lookup,
 `sample["anns"]` in annotation-table order, boxes moved by the inverse ego pose and the inverse
-sensor pose, the `prev`-chain walk of `PredictHelper`), quantified over ALL table sets — no bound on
-the number of samples, instances, sensors. That the model is the devkit + loader is checked on
+sensor pose, the `prev`-chain walk of `PredictHelper`, the finite-difference velocities, and — for
+the 2-D tasks — the camera selection, the `object_ann` filter, truncated ROIs and the merge of
+traffic lights), quantified over ALL table sets — no bound on the number of samples, instances,
+sensors, annotations. That the model is the devkit + loader is checked on
 every run by loading generated dataset directories with the real `load_all_datasets`
 (`harness/props/c16.py`). The label pair tables and the `Visibility` tables are regenerated from
 /repo on every run (`PEval.Gen`), so the `decide` side conditions are re-checked against the code.
 
 Not proved here (left to the correspondence): that the devkit really has the table semantics of the
-model; IEEE arithmetic of the pose computation; velocities (not part of the property).
+model (each assumed fact is a named TRUSTED entry of the harness with a case family exposing a
+deviation); IEEE arithmetic of the pose and velocity computation (the float `1e-6 * timestamp` enters
+the model as the exact rational `Sample.secs`); the order in which Python enumerates `set(uuids)`.
+Not modelled: the transforms other than ego→map stored with a frame, `load_raw_data`.
 -/
 namespace PEval.C16
 open PEval PEval.Dataset
@@ -110,7 +115,7 @@ theorem objects_per_annotation (T : Tables) (cfg : Config) (n : Nat) (s : Sample
   obtain ⟨_, ego, cs, _, _, _, _, _, _, hall⟩ := sampleToFrame_objects h
   refine forall₂_imp hall ?_
   intro a o _ hao
-  obtain ⟨pose, vis, attrs, name, tracked, _, hvis, hattrs, hname, _, rfl⟩ := objectOf_ok hao
+  obtain ⟨pose, vis, attrs, name, vel, tracked, _, hvis, hattrs, hname, _, _, _, rfl⟩ := objectOf_ok hao
   exact ⟨rfl, hname, rfl, hattrs, rfl, rfl, hvis, rfl, rfl⟩
 
 /-- what `categoryNameOf` reads: the category of the annotation's instance -/
@@ -182,7 +187,7 @@ theorem map_pose_eq_annotation (T : Tables) (cfg : Config) (n : Nat) (s : Sample
   obtain ⟨_, ego, cs, _, _, _, _, _, _, hall⟩ := sampleToFrame_objects h
   refine forall₂_imp hall ?_
   intro a o _ hao
-  obtain ⟨pose, _, _, _, _, hpose, _, _, _, _, rfl⟩ := objectOf_ok hao
+  obtain ⟨pose, _, _, _, _, _, hpose, _, _, _, _, _, _, rfl⟩ := objectOf_ok hao
   simp only [boxPose, hm] at hpose
   simp only [show ¬ ("MAP" = "BASE_LINK") by decide, if_false, if_true, Except.ok.injEq] at hpose
   exact hpose.symm
@@ -213,7 +218,7 @@ theorem ego_pose_eq_moved (T : Tables) (cfg : Config) (n : Nat) (s : Sample) (f 
   rw [hcs] at hcs'; cases hcs'
   refine forall₂_imp hall ?_
   intro a o _ hao
-  obtain ⟨pose, _, _, _, _, hpose, _, _, _, _, rfl⟩ := objectOf_ok hao
+  obtain ⟨pose, _, _, _, _, _, hpose, _, _, _, _, _, _, rfl⟩ := objectOf_ok hao
   simp only [boxPose, hb, if_true, Except.ok.injEq, h0, h1, moveInv_identity] at hpose
   exact hpose.symm
 
@@ -259,42 +264,53 @@ theorem no_samples_rejected (T : Tables) (cfg : Config) (h : T.samples = []) :
 
 /-! ## tracking history -/
 
-/-- a tracking task exposes, per object, the poses (and sizes) of the records that
-`get_past_for_agent` returns for the object's annotation, nearest first -/
+/-- a tracking task exposes, per object, one state per record that `get_past_for_agent` returns for
+the object's instance and sample, nearest first: the record's annotated global pose, its size and
+the devkit's `box_velocity` of the record -/
 theorem tracking_history (T : Tables) (cfg : Config) (n : Nat) (s : Sample) (f : Frame)
     (ht : cfg.tracking = true) (h : sampleToFrame T cfg n s = .ok f) :
-    List.Forall₂ (fun a o => ∃ recs, pastRecords T a = .ok recs ∧ o.tracked = some (recs.map pastState))
+    List.Forall₂ (fun a o => ∃ recs states, pastRecords T a = .ok recs ∧ o.tracked = some states ∧
+        List.Forall₂ (fun r st => st.pose = annPose r ∧ st.size = r.size ∧
+          velocityOf T false r = .ok st.velocity) recs states)
       (annsOf T s.token) f.objects := by
   obtain ⟨_, ego, cs, _, _, _, _, _, _, hall⟩ := sampleToFrame_objects h
   refine forall₂_imp hall ?_
   intro a o _ hao
-  obtain ⟨_, _, _, _, tracked, _, _, _, _, htr, rfl⟩ := objectOf_ok hao
+  obtain ⟨_, _, _, _, _, tracked, _, _, _, _, _, _, htr, rfl⟩ := objectOf_ok hao
   simp only [trackedOf, ht, if_true] at htr
   cases hp : pastRecords T a with
-  | error e => simp [hp, Except.map] at htr
+  | error e => simp [hp] at htr
   | ok recs =>
-    simp only [hp, Except.map, Except.ok.injEq] at htr
-    exact ⟨recs, rfl, htr.symm⟩
+    simp only [hp] at htr
+    cases hm : mapE (pastStateOf T) recs with
+    | error e => simp [hm, Except.map] at htr
+    | ok states =>
+      simp only [hm, Except.map, Except.ok.injEq] at htr
+      refine ⟨recs, states, rfl, htr.symm, forall₂_imp (mapE_forall₂ hm) ?_⟩
+      intro r st _ hrs
+      unfold pastStateOf at hrs
+      cases hv : velocityOf T false r with
+      | error e => simp [hv, Except.map] at hrs
+      | ok v =>
+        simp only [hv, Except.map, Except.ok.injEq] at hrs
+        subst hrs
+        exact ⟨rfl, rfl, rfl⟩
 
 /-- when `prev` links stay within one instance (well-formed data), every exposed past state belongs
 to an annotation of the SAME instance -/
 theorem tracking_history_same_instance (T : Tables) (a : Annotation) (recs : List Annotation)
-    (ha : a ∈ T.annotations)
     (hprev : ∀ b ∈ T.annotations, ∀ c, lookup Annotation.token T.annotations b.prev = .ok c →
       c.instanceToken = b.instanceToken)
     (h : pastRecords T a = .ok recs) :
     ∀ r ∈ recs, r ∈ T.annotations ∧ r.instanceToken = a.instanceToken := by
-  unfold pastRecords at h
-  split at h
-  · cases h
-  · rename_i t0 _
-    refine iterate_inv (fun r => r ∈ T.annotations ∧ r.instanceToken = a.instanceToken)
-      (fun r => r ∈ T.annotations ∧ r.instanceToken = a.instanceToken) ?_ _ a 0 [] recs ⟨ha, rfl⟩
-      (fun r hr => by cases hr) h
-    intro cur nxt t ⟨hc, hci⟩ hn _
-    have hm := (lookup_ok_mem hn).1
-    have := hprev cur hc nxt hn
-    exact ⟨⟨hm, this.trans hci⟩, fun _ => ⟨hm, this.trans hci⟩⟩
+  obtain ⟨st, t0, _, hstm, hsti, _, h⟩ := pastRecords_inv h
+  refine iterate_inv (fun r => r ∈ T.annotations ∧ r.instanceToken = a.instanceToken)
+    (fun r => r ∈ T.annotations ∧ r.instanceToken = a.instanceToken) ?_ _ st 0 [] recs ⟨hstm, hsti⟩
+    (fun r hr => by cases hr) h
+  intro cur nxt t ⟨hc, hci⟩ hn _
+  have hm := (lookup_ok_mem hn).1
+  have := hprev cur hc nxt hn
+  exact ⟨⟨hm, this.trans hci⟩, fun _ => ⟨hm, this.trans hci⟩⟩
 
 /-- the history holds at most 6 states, each less than 3.15 s away from the object's own sample -/
 theorem tracking_history_bounds (T : Tables) (a : Annotation) (recs : List Annotation)
@@ -302,36 +318,110 @@ theorem tracking_history_bounds (T : Tables) (a : Annotation) (recs : List Annot
     recs.length ≤ 6 ∧
     ∀ r ∈ recs, ∃ tr ta, timeOf T r.sampleToken = .ok tr ∧ timeOf T a.sampleToken = .ok ta ∧
       absDiff tr ta < 3150000 := by
-  unfold pastRecords at h
-  split at h
-  · cases h
-  · rename_i t0 ht0
-    refine ⟨iterate_length _ a 0 [] recs (by simp [maxPast]) h, ?_⟩
-    refine iterate_inv (fun r => ∃ tr ta, timeOf T r.sampleToken = .ok tr ∧ timeOf T a.sampleToken = .ok ta ∧
-      absDiff tr ta < 3150000) (fun _ => True) ?_ _ a 0 [] recs trivial (fun r hr => by cases hr) h
-    intro cur nxt t _ _ ht
-    exact ⟨trivial, fun hlt => ⟨t, t0, ht, ht0, hlt⟩⟩
+  obtain ⟨st, t0, _, _, _, ht0, h⟩ := pastRecords_inv h
+  refine ⟨iterate_length _ st 0 [] recs (by simp [maxPast]) h, ?_⟩
+  refine iterate_inv (fun r => ∃ tr ta, timeOf T r.sampleToken = .ok tr ∧ timeOf T a.sampleToken = .ok ta ∧
+    absDiff tr ta < 3150000) (fun _ => True) ?_ _ st 0 [] recs trivial (fun r hr => by cases hr) h
+  intro cur nxt t _ _ ht
+  exact ⟨trivial, fun hlt => ⟨t, t0, ht, ht0, hlt⟩⟩
 
 /-- when every `prev` link points to a strictly earlier sample (well-formed data), every exposed
 past state lies strictly BEFORE the object's sample: the history is about preceding samples -/
 theorem tracking_history_preceding (T : Tables) (a : Annotation) (recs : List Annotation)
-    (ha : a ∈ T.annotations)
     (hearlier : ∀ b ∈ T.annotations, ∀ c, lookup Annotation.token T.annotations b.prev = .ok c →
       ∀ tb tc, timeOf T b.sampleToken = .ok tb → timeOf T c.sampleToken = .ok tc → tc < tb)
     (h : pastRecords T a = .ok recs) :
     ∀ r ∈ recs, ∃ tr ta, timeOf T r.sampleToken = .ok tr ∧ timeOf T a.sampleToken = .ok ta ∧ tr < ta := by
-  unfold pastRecords at h
-  split at h
-  · cases h
-  · rename_i t0 ht0
-    refine iterate_inv
-      (fun r => ∃ tr ta, timeOf T r.sampleToken = .ok tr ∧ timeOf T a.sampleToken = .ok ta ∧ tr < ta)
-      (fun c => c ∈ T.annotations ∧ ∃ tc, timeOf T c.sampleToken = .ok tc ∧ tc ≤ t0) ?_ _ a 0 [] recs
-      ⟨ha, t0, ht0, Nat.le_refl _⟩ (fun r hr => by cases hr) h
-    intro cur nxt t ⟨hc, tc, htc, hle⟩ hn ht
-    have hlt := hearlier cur hc nxt hn tc t htc ht
-    have hm := (lookup_ok_mem hn).1
-    exact ⟨⟨hm, t, ht, by omega⟩, fun _ => ⟨t, t0, ht, ht0, by omega⟩⟩
+  obtain ⟨st, t0, hst, hstm, _, ht0, h⟩ := pastRecords_inv h
+  have hst0 : timeOf T st.sampleToken = .ok t0 := (startOf_inv hst).2.1 ▸ ht0
+  refine iterate_inv
+    (fun r => ∃ tr ta, timeOf T r.sampleToken = .ok tr ∧ timeOf T a.sampleToken = .ok ta ∧ tr < ta)
+    (fun c => c ∈ T.annotations ∧ ∃ tc, timeOf T c.sampleToken = .ok tc ∧ tc ≤ t0) ?_ _ st 0 [] recs
+    ⟨hstm, t0, hst0, Nat.le_refl _⟩ (fun r hr => by cases hr) h
+  intro cur nxt t ⟨hc, tc, htc, hle⟩ hn ht
+  have hlt := hearlier cur hc nxt hn tc t htc ht
+  have hm := (lookup_ok_mem hn).1
+  exact ⟨⟨hm, t, ht, by omega⟩, fun _ => ⟨t, t0, ht, ht0, by omega⟩⟩
+
+/-! ### the history is EXACTLY a prefix of the `prev`-chain
+
+`PrevChain T a chain` (`PEval.Lemmas.DatasetHistory`): `chain` lists the records met when walking
+`prev` from `a` down to a record without `prev`, nearest first. `tm r` is the time of the sample of
+record `r`. The code's test (`PredictHelper._iterate`): a record is kept iff its distance in time
+to the object's sample is STRICTLY below 3.0 s + 0.15 s = 3 150 000 µs; the walk goes on while the last
+distance is ≤ that bound and fewer than `int(2 * 3.0) = 6` records are held. With `prev` links that go
+strictly back in time this is "the chain cut at the first record 3.15 s old or older, at most 6". -/
+
+/-- For well-formed data — `prev` links point strictly back in time and the sample holds no second
+annotation of the instance — the records `get_past_for_agent` returns for the object are exactly:
+the `prev`-chain of the object's annotation, nearest first, cut at the first record that is
+3.15 s or more older than the object's sample, truncated to 6. -/
+theorem tracking_history_exact (T : Tables) (tm : Annotation → Nat) (a : Annotation) (chain : List Annotation)
+    (ha : a ∈ T.annotations)
+    (htm : ∀ r ∈ T.annotations, timeOf T r.sampleToken = .ok (tm r))
+    (hearlier : ∀ b ∈ T.annotations, ∀ c, lookup Annotation.token T.annotations b.prev = .ok c → tm c < tm b)
+    (huniq : ∀ b ∈ T.annotations, b.sampleToken = a.sampleToken → b.instanceToken = a.instanceToken → b = a)
+    (hchain : PrevChain T a chain) :
+    pastRecords T a = .ok ((chain.takeWhile (fun r => decide (tm a - tm r < 3150000))).take 6) := by
+  obtain ⟨hlt, hpw⟩ := hchain.desc ha hearlier
+  have hlen := hchain.length_lt ha hearlier
+  have hwalk := iterate_eq_walk (start := tm a) (tm := tm) hchain (fun r hr => htm r (hchain.mem r hr))
+    T.annotations.length 0 [] hlen
+  have habs : ∀ r ∈ chain, absDiff (tm r) (tm a) = tm a - tm r := by
+    intro r hr
+    have := hlt r hr
+    simp only [absDiff]
+    split <;> omega
+  have hspec := walk_spec (start := tm a) (tm := tm) chain 0 [] (by simp [windowUs])
+    (fun r hr => by rw [habs r hr]; have := hlt r hr; omega)
+    (hpw.imp_of_mem (fun {x y} hx hy hxy => by
+      rw [habs x hx, habs y hy]; have := hlt x hx; have := hlt y hy; omega))
+  have htw : chain.takeWhile (fun r => decide (absDiff (tm r) (tm a) < windowUs))
+      = chain.takeWhile (fun r => decide (tm a - tm r < 3150000)) := by
+    apply takeWhile_congr_mem
+    intro r hr
+    rw [habs r hr]; rfl
+  simp only [pastRecords, startOf_self ha huniq, htm a ha, hwalk, hspec, htw]
+  simp [maxPast]
+
+/-- on referentially intact tables with `prev` links strictly back in time, the chain of every
+annotation exists (the walk along `prev` ends), is unique, sorted newest first, strictly older than
+the annotation, made of records of the annotation table, and stays in the instance when every link does -/
+theorem prev_chain_exists_sorted (T : Tables) (tm : Annotation → Nat) (a : Annotation) (wf : WellFormed T)
+    (ha : a ∈ T.annotations)
+    (hearlier : ∀ b ∈ T.annotations, ∀ c, lookup Annotation.token T.annotations b.prev = .ok c → tm c < tm b) :
+    ∃ chain, PrevChain T a chain ∧ (∀ chain', PrevChain T a chain' → chain' = chain) ∧
+      (∀ r ∈ chain, r ∈ T.annotations ∧ tm r < tm a) ∧ chain.Pairwise (fun x y => tm y < tm x) ∧
+      ((∀ b ∈ T.annotations, ∀ c, lookup Annotation.token T.annotations b.prev = .ok c →
+          c.instanceToken = b.instanceToken) → ∀ r ∈ chain, r.instanceToken = a.instanceToken) := by
+  obtain ⟨chain, hc⟩ := PrevChain.exists_of_wf wf tm hearlier (tm a + 1) a ha (Nat.lt_succ_self _)
+  obtain ⟨h1, h2⟩ := hc.desc ha hearlier
+  exact ⟨chain, hc, fun c' hc' => hc'.unique hc, fun r hr => ⟨hc.mem r hr, h1 r hr⟩, h2,
+    fun hprev => hc.same_instance ha hprev⟩
+
+/-- … so, in a loaded tracking frame of such data, the history of every object is the poses and sizes
+of that prefix of its annotation's chain, nearest first -/
+theorem tracking_history_exact_frame (T : Tables) (tm : Annotation → Nat) (cfg : Config) (n : Nat) (s : Sample)
+    (f : Frame) (ht : cfg.tracking = true) (h : sampleToFrame T cfg n s = .ok f)
+    (htm : ∀ r ∈ T.annotations, timeOf T r.sampleToken = .ok (tm r))
+    (hearlier : ∀ b ∈ T.annotations, ∀ c, lookup Annotation.token T.annotations b.prev = .ok c → tm c < tm b)
+    (huniq : ∀ a ∈ T.annotations, ∀ b ∈ T.annotations, b.sampleToken = a.sampleToken →
+      b.instanceToken = a.instanceToken → b = a) :
+    List.Forall₂ (fun a o => ∀ chain, PrevChain T a chain → ∃ states, o.tracked = some states ∧
+        states.map (fun st => (st.pose, st.size)) =
+          ((chain.takeWhile (fun r => decide (tm a - tm r < 3150000))).take 6).map (fun r => (annPose r, r.size)))
+      (annsOf T s.token) f.objects := by
+  refine forall₂_imp (tracking_history T cfg n s f ht h) ?_
+  intro a o ha ⟨recs, states, hrecs, hst, hall⟩ chain hchain
+  have ham := (annsOf_mem ha).1
+  rw [tracking_history_exact T tm a chain ham htm hearlier (huniq a ham) hchain] at hrecs
+  cases hrecs
+  refine ⟨states, hst, ?_⟩
+  clear hst
+  generalize (chain.takeWhile (fun r => decide (tm a - tm r < 3150000))).take 6 = l at hall
+  induction hall with
+  | nil => rfl
+  | cons hrs _ ih => simp [hrs.1, hrs.2.1, ih]
 
 /-- other tasks (detection, sensing) expose no history -/
 theorem no_history_unless_tracking (T : Tables) (cfg : Config) (n : Nat) (s : Sample) (f : Frame)
@@ -340,23 +430,154 @@ theorem no_history_unless_tracking (T : Tables) (cfg : Config) (n : Nat) (s : Sa
   obtain ⟨_, ego, cs, _, _, _, _, _, _, hall⟩ := sampleToFrame_objects h
   intro o ho
   obtain ⟨a, _, hab⟩ := forall₂_mem_right hall ho
-  obtain ⟨_, _, _, _, tracked, _, _, _, _, htr, rfl⟩ := objectOf_ok hab
+  obtain ⟨_, _, _, _, _, tracked, _, _, _, _, _, _, htr, rfl⟩ := objectOf_ok hab
   simp only [trackedOf, ht, Bool.false_eq_true, if_false, Except.ok.injEq] at htr
   exact htr.symm
+
+/-! ## velocities
+
+`velocityOf T true a`  = `_get_box_velocity(nusc, a.token)` of perception_eval (object axes of `first`),
+`velocityOf T false r` = `nusc.box_velocity(r.token)` of the devkit (global axes; `none` = the all-`nan`
+vector). `secs` of a sample is the float `1e-6 * timestamp` (exact value); `velocity_exact_time`
+specialises to timestamps for which that product is exact. -/
+
+/-- every loaded object carries `_get_box_velocity` of its annotation — whatever the frame id and task -/
+theorem objects_velocity (T : Tables) (cfg : Config) (n : Nat) (s : Sample) (f : Frame)
+    (h : sampleToFrame T cfg n s = .ok f) :
+    List.Forall₂ (fun a o => velocityOf T true a = .ok o.velocity) (annsOf T s.token) f.objects := by
+  obtain ⟨_, ego, cs, _, _, _, _, _, _, hall⟩ := sampleToFrame_objects h
+  refine forall₂_imp hall ?_
+  intro a o _ hao
+  obtain ⟨_, _, _, _, vel, _, _, _, _, _, _, hvel, _, rfl⟩ := objectOf_ok hao
+  exact hvel
+
+/-- an annotation with neither `prev` nor `next` has no velocity estimate (`None`; `nan` for the devkit) -/
+theorem velocity_none_single (T : Tables) (objectFrame : Bool) (a : Annotation)
+    (hp : a.prev = "") (hn : a.next = "") : velocityOf T objectFrame a = .ok none := by
+  simp [velocityOf, hp, hn]
+
+/-- the formula. `first` = the `prev` record, or the annotation itself when it has none; `last` = the
+`next` record, or itself; `tf`, `tl` their sample times in seconds. The estimate is the displacement
+`last − first` (for `_get_box_velocity`: turned into the axes of `first` by its inverse rotation)
+divided by `tl − tf`, and there is NO estimate exactly when `tl − tf` exceeds 1.5 s — 3 s when both
+neighbours exist (the bound itself is allowed: `time_diff <= max_time_diff`). -/
+theorem velocity_formula (T : Tables) (objectFrame : Bool) (a first last : Annotation) (tf tl : Rat)
+    (hsome : a.prev ≠ "" ∨ a.next ≠ "")
+    (hfirst : if a.prev = "" then first = a else lookup Annotation.token T.annotations a.prev = .ok first)
+    (hlast : if a.next = "" then last = a else lookup Annotation.token T.annotations a.next = .ok last)
+    (htf : secsOf T first.sampleToken = .ok tf) (htl : secsOf T last.sampleToken = .ok tl) :
+    velocityOf T objectFrame a = .ok
+      (if tl - tf ≤ (if a.prev ≠ "" ∧ a.next ≠ "" then 3 else 3 / 2) then
+        some (((if objectFrame then rotate first.rotation.conj (last.translation.sub first.translation)
+                else last.translation.sub first.translation)).divBy (tl - tf))
+       else none) := by
+  have h0 : (a.prev == "" && a.next == "") = false := by
+    rcases hsome with h | h <;> simp [h]
+  have h1 : (if a.prev == "" then Except.ok a else lookup Annotation.token T.annotations a.prev) = .ok first := by
+    by_cases hp : a.prev = ""
+    · simp only [hp, if_true] at hfirst; simp [hp, hfirst]
+    · simp only [hp, if_false] at hfirst; simp [hp, hfirst]
+  have h2 : (if a.next == "" then Except.ok a else lookup Annotation.token T.annotations a.next) = .ok last := by
+    by_cases hn : a.next = ""
+    · simp only [hn, if_true] at hlast; simp [hn, hlast]
+    · simp only [hn, if_false] at hlast; simp [hn, hlast]
+  have h3 : maxTimeDiff a = (if a.prev ≠ "" ∧ a.next ≠ "" then 3 else 3 / 2) := by
+    unfold maxTimeDiff
+    by_cases hp : a.prev = "" <;> by_cases hn : a.next = "" <;> simp [hp, hn]
+  simp only [velocityOf, h0, Bool.false_eq_true, if_false, h1, h2, htf, htl, h3]
+
+/-- with exact times (`secs = timestamp / 10^6`, e.g. timestamps on a 1/64 s grid) the divisor is the
+difference of the two sample timestamps in seconds -/
+theorem velocity_exact_time (T : Tables) (first last : Annotation) (sf sl : Sample)
+    (hf : lookup Sample.token T.samples first.sampleToken = .ok sf)
+    (hl : lookup Sample.token T.samples last.sampleToken = .ok sl)
+    (hef : sf.secs = (sf.timestamp : Rat) / 1000000) (hel : sl.secs = (sl.timestamp : Rat) / 1000000) :
+    ∃ tf tl, secsOf T first.sampleToken = .ok tf ∧ secsOf T last.sampleToken = .ok tl ∧
+      tl - tf = ((sl.timestamp : Rat) - sf.timestamp) / 1000000 := by
+  refine ⟨sf.secs, sl.secs, secsOf_ok hf, secsOf_ok hl, ?_⟩
+  rw [hef, hel]
+  grind
+
+/-- on referentially intact tables both velocity functions are defined for every annotation -/
+theorem velocity_total (T : Tables) (wf : WellFormed T) (objectFrame : Bool) (a : Annotation)
+    (ha : a ∈ T.annotations) : ∃ v, velocityOf T objectFrame a = .ok v :=
+  velocityOf_ok wf objectFrame ha
+
+/-! ## FP_VALIDATION, unknown sensor channels -/
+
+/-- under FP_VALIDATION a loaded frame holds only objects labelled FP (any other converted label makes
+`_sample_to_frame` raise `ValueError`) -/
+theorem fp_validation_all_fp (T : Tables) (cfg : Config) (n : Nat) (s : Sample) (f : Frame)
+    (hfp : cfg.fpValidation = true) (h : sampleToFrame T cfg n s = .ok f) :
+    ∀ o ∈ f.objects, o.label = "FP" := by
+  obtain ⟨_, ego, cs, _, _, _, _, _, _, hall⟩ := sampleToFrame_objects h
+  intro o ho
+  obtain ⟨a, _, hab⟩ := forall₂_mem_right hall ho
+  obtain ⟨_, _, _, name, _, _, _, _, _, _, hchk, _, _, rfl⟩ := objectOf_ok hab
+  simp only [fpCheck, hfp, Bool.true_and] at hchk
+  by_cases hl : convertLabel cfg.merge name = "FP"
+  · exact hl
+  · simp [hl] at hchk
+
+/-- … and an annotation whose category converts to another label is rejected with `ValueError`, once
+its pose, visibility, attributes and category resolve -/
+theorem fp_validation_rejects (T : Tables) (cfg : Config) (time : Nat) (ego : EgoPose) (cs : CalibratedSensor)
+    (a : Annotation) (pose : Pose) (vis : Option String) (attrs : List String) (name : String)
+    (hfp : cfg.fpValidation = true) (hpose : boxPose cfg.frame ego cs a = .ok pose)
+    (hvis : visibilityOf T a = .ok vis) (hattrs : attributeNamesOf T a = .ok attrs)
+    (hname : categoryNameOf T a = .ok name) (hl : convertLabel cfg.merge name ≠ "FP") :
+    objectOf T cfg time ego cs a = .error "ValueError" := by
+  simp [objectOf, hpose, hvis, hattrs, hname, fpCheck, hfp, hl, bind, Except.bind]
+
+/-- `_get_transforms` converts the channel of EVERY calibrated sensor of the dataset with
+`FrameID.from_value`: a frame loads only if all of them are `FrameID` values -/
+theorem sensor_channels_are_frame_ids (T : Tables) (cfg : Config) (n : Nat) (s : Sample) (f : Frame)
+    (h : sampleToFrame T cfg n s = .ok f) :
+    ∀ cs ∈ T.calibratedSensors, ∃ sen m, lookup Sensor.token T.sensors cs.sensorToken = .ok sen ∧
+      Enums.frameFromValue sen.channel = .ok m := by
+  obtain ⟨_, _, _, _, frs, _, _, _, _, hfrs, _, _⟩ := sampleToFrame_ok h
+  intro cs hcs
+  have hall := mapE_forall₂ (sensorFrames_ok hfrs).1
+  obtain ⟨m, _, hm⟩ := forall₂_mem_left hall hcs
+  cases hl : lookup Sensor.token T.sensors cs.sensorToken with
+  | error e => simp [hl] at hm
+  | ok sen =>
+    simp only [hl] at hm
+    exact ⟨sen, m, rfl, hm⟩
+
+/-- KNOWN FINDING C16-N1, pinned down: `_get_transforms` averages the calibrated rotations of the
+traffic-light cameras as `sum(q) / sum(q).norm`. A loaded frame therefore implies that those rotations
+do not sum to the zero quaternion, and a dataset where they do — two cameras calibrated `q` and `-q`,
+which is one and the same rotation — cannot be loaded at all (`ZeroDivisionError`), for any task. -/
+theorem traffic_light_rotations_must_not_cancel (T : Tables) (cfg : Config) (n : Nat) (s : Sample) :
+    (∀ f, sampleToFrame T cfg n s = .ok f → ∃ frs, sensorFrames T = .ok frs ∧
+      (tlrRotations T frs = [] ∨ (tlrRotations T frs).foldl Quat.add Quat.zero ≠ Quat.zero)) ∧
+    (∀ sd ego cs, lidarOf T s.token = .ok sd → (cfg.frame = "BASE_LINK" ∨ cfg.frame = "MAP") →
+      lookup EgoPose.token T.egoPoses sd.egoPoseToken = .ok ego →
+      lookup CalibratedSensor.token T.calibratedSensors sd.calibratedSensorToken = .ok cs →
+      sensorFrames T = .error "ZeroDivisionError" → sampleToFrame T cfg n s = .error "ZeroDivisionError") := by
+  refine ⟨?_, ?_⟩
+  · intro f h
+    obtain ⟨_, _, _, _, frs, _, _, _, _, hfrs, _, _⟩ := sampleToFrame_ok h
+    exact ⟨frs, hfrs, (sensorFrames_ok hfrs).2⟩
+  · intro sd ego cs hsd hfr hego hcs hz
+    simp [sampleToFrame, hsd, hfr, hego, hcs, hz, bind, Except.bind]
 
 /-! ## loading a well-formed dataset never fails -/
 
 /-- on referentially intact tables (`WellFormed`: every followed token resolves, every sample has a
-lidar key frame) the loader returns frames for both supported frame ids, every task, merge on/off -/
+lidar key frame, every sensor channel is a `FrameID` value) the loader returns frames for both supported
+frame ids, detection / tracking / sensing, merge on/off (for FP_VALIDATION see `fp_validation_*`) -/
 theorem load_total (T : Tables) (cfg : Config) (wf : WellFormed T)
-    (hfr : cfg.frame = "BASE_LINK" ∨ cfg.frame = "MAP") : ∃ fs, loadDataset T cfg = .ok fs := by
+    (hfr : cfg.frame = "BASE_LINK" ∨ cfg.frame = "MAP") (hfp : cfg.fpValidation = false) :
+    ∃ fs, loadDataset T cfg = .ok fs := by
   unfold loadDataset
   have : T.samples.isEmpty = false := by
     cases hs : T.samples with
     | nil => exact absurd hs wf.samples_ne
     | cons _ _ => rfl
   simp only [this, Bool.false_eq_true, if_false]
-  exact loadFrom_total wf hfr T.samples 0 (fun s hs => hs)
+  exact loadFrom_total wf hfr hfp T.samples 0 (fun s hs => hs)
 
 /-- any other frame id is rejected (`_get_sample_boxes`) -/
 theorem other_frame_rejected (T : Tables) (cfg : Config) (n : Nat) (s : Sample) (sd : SampleData)
@@ -364,14 +585,181 @@ theorem other_frame_rejected (T : Tables) (cfg : Config) (n : Nat) (s : Sample) 
     sampleToFrame T cfg n s = .error "ValueError" := by
   simp [sampleToFrame, hsd, hfr, bind, Except.bind, throw, throwThe, MonadExceptOf.throw]
 
+/-! ## 2-D tasks (`_sample_to_frame_2d`)
+
+The "annotations" of a 2-D frame are the records of `object_ann.json` whose `sample_data_token` is
+the key-frame image of one of the REQUESTED frame ids (cameras) in the sample — `objectAnnsOf T
+(camerasOf T s.token cfg.frames)`, in table order. -/
+
+/-- 2-D label conversion is total: every category name converts to a member of the label family of
+the converter (`AutowareLabel` for the prefix `autoware`, `TrafficLightLabel` for `traffic_light`) -/
+theorem label2d_total (cfg : Config2D) (name : String) :
+    convertWith (pairTable2D cfg) name ∈
+      (if cfg.family = "traffic_light" then Gen.trafficLightLabel else Gen.autowareLabel).map (·.1) := by
+  have hcls : ∀ p ∈ Gen.trafficLightPairsClassification, p.1 ∈ Gen.trafficLightLabel.map (·.1) := by decide
+  have hoth : ∀ p ∈ Gen.trafficLightPairsOther, p.1 ∈ Gen.trafficLightLabel.map (·.1) := by decide
+  have hunk : "UNKNOWN" ∈ Gen.trafficLightLabel.map (·.1) ∧ "UNKNOWN" ∈ Gen.autowareLabel.map (·.1) := by decide
+  rcases convertWith_cases (pairTable2D cfg) name with ⟨p, hp, _, h⟩ | ⟨_, h⟩
+  · rw [h]
+    unfold pairTable2D at hp
+    split at hp
+    · rename_i hf
+      simp only [hf, if_true]
+      rcases trafficLightTable_cases cfg.task with ht | ht
+      · rw [ht] at hp; exact hcls p hp
+      · rw [ht] at hp; exact hoth p hp
+    · rename_i hf
+      simp only [hf, if_false]
+      exact label_table_members cfg.merge p hp
+  · rw [h]
+    split
+    · exact hunk.1
+    · exact hunk.2
+
+/-- one frame per sample, in dataset order, carrying the sample's timestamp and named by its index -/
+theorem frames2d_length_order_time (T : Tables) (cfg : Config2D) (fs : List Frame2D)
+    (h : loadDataset2D T cfg = .ok fs) :
+    fs.length = T.samples.length ∧
+    ∀ i (hi : i < T.samples.length), ∃ f, fs[i]? = some f ∧ sampleToFrame2D T cfg i T.samples[i] = .ok f ∧
+      f.unixTime = T.samples[i].timestamp ∧ f.frameName = toString i := by
+  unfold loadDataset2D at h
+  split at h
+  · cases h
+  · obtain ⟨hlen, hidx⟩ := loadFrom2D_spec h
+    refine ⟨hlen, ?_⟩
+    intro i hi
+    obtain ⟨f, hf, hs⟩ := hidx i hi
+    have hs' : sampleToFrame2D T cfg i T.samples[i] = .ok f := by simpa using hs
+    obtain ⟨_, _, _, _, _, _, rfl⟩ := sampleToFrame2D_ok hs'
+    exact ⟨_, hf, hs', rfl, rfl⟩
+
+/-- the cameras of a frame: exactly the requested frame ids for which the sample has a key-frame
+`sample_data` of the channel `frame_id.value.upper()`, in the order requested -/
+theorem cameras_selected (T : Tables) (tok : String) (frames : List String) :
+    (∀ fr sd, (fr, sd) ∈ camerasOf T tok frames ↔ fr ∈ frames ∧ dataOf T tok (cameraType fr) = some sd) ∧
+    ((camerasOf T tok frames).map (·.1)).Sublist frames :=
+  ⟨fun _ _ => mem_camerasOf, camerasOf_sublist T tok frames⟩
+
+/-- the transform stored with a 2-D frame: none when no requested camera has data; otherwise the ego
+pose of the image of the LAST requested camera that has data (and then every sensor channel of the
+dataset is a `FrameID` value) -/
+theorem ego2map_2d (T : Tables) (cfg : Config2D) (n : Nat) (s : Sample) (f : Frame2D)
+    (h : sampleToFrame2D T cfg n s = .ok f) :
+    (camerasOf T s.token cfg.frames = [] → f.ego2map = none) ∧
+    (∀ c, (camerasOf T s.token cfg.frames).getLast? = some c →
+      ∃ ego, lookup EgoPose.token T.egoPoses c.2.egoPoseToken = .ok ego ∧
+        f.ego2map = some ⟨ego.translation, ego.rotation⟩) := by
+  obtain ⟨tf, _, _, htf, _, _, rfl⟩ := sampleToFrame2D_ok h
+  obtain ⟨h1, h2, _⟩ := transforms2D_spec htf
+  exact ⟨h1, h2⟩
+
+/-- Unless traffic lights are merged (family `traffic_light` with CLASSIFICATION2D, see
+`merged_traffic_lights`), the objects of a loaded 2-D frame correspond one-to-one, in order, to the
+2-D annotations on the requested cameras; each object carries the name of the annotation's category
+and its converted label, the names of its attributes, the ROI of its bbox (detection / tracking
+only), the frame id under which its camera was requested, the sample's time, and as uuid the
+annotation's instance token — for the traffic-light family the regulatory-element id (last
+`:`-segment of `instance_name`) of the first instance record carrying that token. -/
+theorem objects2d_per_annotation (T : Tables) (cfg : Config2D) (n : Nat) (s : Sample) (f : Frame2D)
+    (hnm : ¬ (cfg.family = "traffic_light" ∧ cfg.task = "CLASSIFICATION2D"))
+    (h : sampleToFrame2D T cfg n s = .ok f) :
+    List.Forall₂ (fun o obj =>
+        (∃ cat, lookup Named.token T.categories o.categoryToken = .ok cat ∧ obj.name = cat.name) ∧
+        obj.label = convertWith (pairTable2D cfg) obj.name ∧
+        attributeNamesOfTokens T o.attributeTokens = .ok obj.attributes ∧
+        obj.roi = roiOf cfg.task o ∧
+        frameOfToken (camerasOf T s.token cfg.frames) o.sampleDataToken = some obj.frame ∧
+        obj.time = s.timestamp ∧
+        (cfg.family ≠ "traffic_light" → obj.uuid = o.instanceToken) ∧
+        (cfg.family = "traffic_light" → ∀ i, T.instances.find? (fun i => i.token == o.instanceToken) = some i →
+          obj.uuid = lastSegment i.instanceName))
+      (objectAnnsOf T (camerasOf T s.token cfg.frames)) f.objects := by
+  obtain ⟨_, objs, objs', _, hobjs, hm, rfl⟩ := sampleToFrame2D_ok h
+  simp only [hnm, if_false, Except.ok.injEq] at hm
+  subst hm
+  refine forall₂_imp (objects2DLoop_forall₂ hobjs) ?_
+  intro o obj _ ⟨st, ho⟩
+  obtain ⟨cat, attrs, uuid, fr, hcat, hattrs, huuid, hfr, rfl⟩ := object2DOf_ok ho
+  refine ⟨⟨cat, hcat, rfl⟩, rfl, hattrs, rfl, hfr, rfl, ?_, ?_⟩
+  · intro hne
+    simp only [hne, if_false, Except.ok.injEq] at huuid
+    exact huuid.symm
+  · intro heq i hi
+    simp only [heq, if_true, tlrUuid, hi, Except.ok.injEq] at huuid
+    exact huuid.symm
+
+/-- the ROI: `None` for classification / fp-validation; for detection and tracking
+`(int(xmin), int(ymin), int(xmax) - int(xmin), int(ymax) - int(ymin))` where `int` TRUNCATES toward zero
+(so width and height are differences of truncated corners, not truncated differences) -/
+theorem roi_truncates_toward_zero (task : String) (o : ObjectAnn) :
+    ((task = "DETECTION2D" ∨ task = "TRACKING2D") → roiOf task o =
+      some ⟨truncInt o.x0, truncInt o.y0, truncInt o.x1 - truncInt o.x0, truncInt o.y1 - truncInt o.y0⟩) ∧
+    (¬ (task = "DETECTION2D" ∨ task = "TRACKING2D") → roiOf task o = none) ∧
+    (∀ q : Rat, 0 ≤ q → 0 ≤ truncInt q ∧ (truncInt q : Rat) ≤ q ∧ q < (truncInt q : Rat) + 1) ∧
+    (∀ q : Rat, q < 0 → truncInt q ≤ 0 ∧ q ≤ (truncInt q : Rat) ∧ (truncInt q : Rat) - 1 < q) := by
+  refine ⟨fun h => by simp [roiOf, h], fun h => by simp [roiOf, h], fun q => truncInt_nonneg, fun q => truncInt_neg⟩
+
+/-- the traffic-light uuid of one annotation: the regulatory-element id of the FIRST instance record
+with the annotation's instance token; when no instance record matches, the previous object's uuid is
+reused silently, and the very first object of the frame fails with `UnboundLocalError` -/
+theorem traffic_light_uuid (T : Tables) (o : ObjectAnn) :
+    (∀ i stale, T.instances.find? (fun i => i.token == o.instanceToken) = some i →
+      tlrUuid T stale o = .ok (lastSegment i.instanceName)) ∧
+    (T.instances.find? (fun i => i.token == o.instanceToken) = none →
+      (∀ u, tlrUuid T (some u) o = .ok u) ∧ tlrUuid T none o = .error "UnboundLocalError") := by
+  refine ⟨fun i stale hi => by simp [tlrUuid, hi], fun hn => ⟨fun u => by simp [tlrUuid, hn], by simp [tlrUuid, hn]⟩⟩
+
+/-- family `traffic_light` with CLASSIFICATION2D: the frame holds ONE object per distinct uuid of the
+per-annotation objects `objs` (which are as in `objects2d_per_annotation`), stamped
+`CAM_TRAFFIC_LIGHT`, without ROI; its label, name and attributes are those of one of the candidates
+with that uuid — the common label if all candidates agree, otherwise (exactly two distinct labels are
+tolerated, else `AssertionError`) a label different from UNKNOWN -/
+theorem merged_traffic_lights (T : Tables) (cfg : Config2D) (n : Nat) (s : Sample) (f : Frame2D)
+    (hm : cfg.family = "traffic_light" ∧ cfg.task = "CLASSIFICATION2D")
+    (h : sampleToFrame2D T cfg n s = .ok f) :
+    ∃ objs, objects2DLoop T cfg s.timestamp (camerasOf T s.token cfg.frames) none
+        (objectAnnsOf T (camerasOf T s.token cfg.frames)) = .ok objs ∧
+      f.objects.map (·.uuid) = dedupFirst (objs.map (·.uuid)) ∧ (f.objects.map (·.uuid)).Nodup ∧
+      (∀ u, u ∈ f.objects.map (·.uuid) ↔ u ∈ objs.map (·.uuid)) ∧
+      ∀ m ∈ f.objects, m.frame = "CAM_TRAFFIC_LIGHT" ∧ m.roi = none ∧ m.time = s.timestamp ∧
+        ∃ c ∈ objs, c.uuid = m.uuid ∧ m.label = c.label ∧ m.name = c.name ∧ m.attributes = c.attributes ∧
+          ((∀ c' ∈ objs, c'.uuid = m.uuid → c'.label = m.label) ∨
+           (m.label ≠ "UNKNOWN" ∧
+            (dedupFirst ((objs.filter (fun o => o.uuid == m.uuid)).map (·.label))).length = 2)) := by
+  obtain ⟨_, objs, objs', _, hobjs, hmerge, rfl⟩ := sampleToFrame2D_ok h
+  simp only [hm, and_self, if_true] at hmerge
+  unfold mergeTrafficLights at hmerge
+  have hall := mapE_forall₂ hmerge
+  have huu : objs'.map (·.uuid) = dedupFirst (objs.map (·.uuid)) := merge_uuids hall
+  refine ⟨objs, hobjs, huu, huu ▸ nodup_dedupFirst _, fun u => by rw [huu]; exact mem_dedupFirst, ?_⟩
+  intro m hmm
+  obtain ⟨u, _, hu⟩ := forall₂_mem_right hall hmm
+  obtain ⟨h1, h2, h3, h4, c, hc, hcu, rest⟩ := mergeOne_ok hu
+  subst h1
+  exact ⟨h2, h3, h4, c, hc, hcu, rest⟩
+
+/-- on referentially intact tables (`WellFormed2D`) the 2-D loader returns frames for every list of
+frame ids, every 2-D task and both label families — the merging configuration excepted, which can
+also fail with `AssertionError` on three or more distinct labels under one uuid -/
+theorem load2d_total (T : Tables) (cfg : Config2D) (wf : WellFormed2D T)
+    (hnm : ¬ (cfg.family = "traffic_light" ∧ cfg.task = "CLASSIFICATION2D")) :
+    ∃ fs, loadDataset2D T cfg = .ok fs := by
+  unfold loadDataset2D
+  have : T.samples.isEmpty = false := by
+    cases hs : T.samples with
+    | nil => exact absurd hs wf.samples_ne
+    | cons _ _ => rfl
+  simp only [this, Bool.false_eq_true, if_false]
+  exact loadFrom2D_total wf cfg hnm T.samples 0
+
 /-! ## non-vacuity: the hypotheses above hold of a concrete, non-trivial table set
 (`PEval.Dataset.exTables`: two samples, two sensors, rotated ego poses, a bus seen twice, a pedestrian
 of an unregistered category) -/
 
 example : WellFormed exTables := exTables_wellFormed
 
-example : ∃ fs, loadDataset exTables ⟨true, "BASE_LINK", true⟩ = .ok fs ∧ fs.length = 2 := by
-  obtain ⟨fs, h⟩ := load_total exTables ⟨true, "BASE_LINK", true⟩ exTables_wellFormed (Or.inl rfl)
+example : ∃ fs, loadDataset exTables ⟨true, "BASE_LINK", true, false⟩ = .ok fs ∧ fs.length = 2 := by
+  obtain ⟨fs, h⟩ := load_total exTables ⟨true, "BASE_LINK", true, false⟩ exTables_wellFormed (Or.inl rfl) rfl
   exact ⟨fs, h, (frames_length_order_time _ _ _ h).1⟩
 
 -- the hypotheses of `ego_pose_eq_moved` / `ego_pose_roundtrip` (a genuinely 3-D unit ego rotation)
@@ -382,17 +770,17 @@ example : lookup CalibratedSensor.token exTables.calibratedSensors exSd1.calibra
 example : exCsT.translation = Vec3.zero ∧ exCsT.rotation = Quat.one ∧ exEgo1.rotation.normSq = 1 ∧
     exEgo1.rotation ≠ Quat.one := by decide +kernel
 example : annsOf exTables exS1.token = [exA0] := by decide +kernel
-example : (sampleToFrame exTables ⟨true, "BASE_LINK", false⟩ 1 exS1).toBool = true := by decide +kernel
-example : (sampleToFrame exTables ⟨false, "MAP", true⟩ 1 exS1).toBool = true := by decide +kernel
+example : (sampleToFrame exTables ⟨true, "BASE_LINK", false, false⟩ 1 exS1).toBool = true := by decide +kernel
+example : (sampleToFrame exTables ⟨false, "MAP", true, false⟩ 1 exS1).toBool = true := by decide +kernel
 
 -- the object of the bus in the second sample (label and visibility are whatever the regenerated tables say)
-example : ((sampleToFrame exTables ⟨false, "BASE_LINK", false⟩ 1 exS1).toOption.map (fun f => f.objects.map
+example : ((sampleToFrame exTables ⟨false, "BASE_LINK", false, false⟩ 1 exS1).toOption.map (fun f => f.objects.map
       (fun o => [o.uuid, o.name, o.frame] ++ o.attributes))) =
     some [["i0", "Vehicle.Bus", "BASE_LINK", "vehicle.moving"]] := by decide +kernel
-example : ((sampleToFrame exTables ⟨false, "BASE_LINK", false⟩ 1 exS1).toOption.map (fun f => f.objects.map
+example : ((sampleToFrame exTables ⟨false, "BASE_LINK", false, false⟩ 1 exS1).toOption.map (fun f => f.objects.map
       (fun o => (o.pose, o.points)))) =
     some [(⟨⟨-3, -5, 33/2⟩, ⟨16/25, -14/25, -2/25, -13/25⟩⟩, 0)] := by decide +kernel
-example : ((sampleToFrame exTables ⟨false, "BASE_LINK", true⟩ 1 exS1).toOption.map (fun f => f.objects.map
+example : ((sampleToFrame exTables ⟨false, "BASE_LINK", true, false⟩ 1 exS1).toOption.map (fun f => f.objects.map
       (fun o => (o.label, o.visibility)))) =
     some [(convertLabel true "Vehicle.Bus", some (visibilityOfLevel "v80-100"))] := by decide +kernel
 -- the label tables are inhabited, and some name is outside them
@@ -414,9 +802,59 @@ example : ∀ b ∈ exTables.annotations, ∀ c, lookup Annotation.token exTable
   simpa [hc] using this
 
 -- the two rejections
-example : loadDataset { exTables with samples := [] } ⟨false, "MAP", false⟩ = .error "DatasetLoadingError" :=
+example : loadDataset { exTables with samples := [] } ⟨false, "MAP", false, false⟩ = .error "DatasetLoadingError" :=
   no_samples_rejected _ _ rfl
-example : sampleToFrame { exTables with sampleData := [] } ⟨false, "MAP", false⟩ 0 exS1 = .error "ValueError" :=
+example : sampleToFrame { exTables with sampleData := [] } ⟨false, "MAP", false, false⟩ 0 exS1 = .error "ValueError" :=
   no_lidar_rejected _ _ _ _ (by decide +kernel) (by decide +kernel)
+
+-- the exact history: the chain of the bus's second annotation, and the side conditions
+example : PrevChain exTables exA0 [exA2] :=
+  .cons (by decide) (by decide +kernel) (.nil (by decide))
+example : ∀ b ∈ exTables.annotations, b.sampleToken = exA0.sampleToken → b.instanceToken = exA0.instanceToken →
+    b = exA0 := by
+  have h : exTables.annotations.all (fun b =>
+      !(b.sampleToken == exA0.sampleToken && b.instanceToken == exA0.instanceToken) || b == exA0) = true := by
+    decide +kernel
+  intro b hb h1 h2
+  have := List.all_eq_true.1 h b hb
+  simpa [h1, h2] using this
+
+-- velocities: the bus moved (2, 1, 0) in 0.5 s; seen from the first record's axes (yaw with cos = 7/25, sin = 24/25)
+example : velocityOf exTables false exA0 = .ok (some ⟨4, 2, 0⟩) := by decide +kernel
+example : velocityOf exTables true exA0 = .ok (some ⟨76 / 25, -82 / 25, 0⟩) := by decide +kernel
+example : velocityOf exTables true exA2 = velocityOf exTables true exA0 := by decide +kernel
+example : (exTables.annotations.map (fun a => (velocityOf exTables true a).toOption.join.isSome)) =
+    [true, false, true] := by decide +kernel
+
+-- C16-N1: the example with two traffic-light cameras calibrated q and -q cannot be loaded
+example : sensorFrames { exTables2D with
+    sensors := exTables2D.sensors ++ [⟨"senX", "CAM_TRAFFIC_LIGHT_FAR"⟩],
+    calibratedSensors := [⟨"csT", "senT", Vec3.zero, Quat.one⟩, ⟨"csN", "senN", ⟨1, 0, 2⟩, ⟨4/5, 0, 0, 3/5⟩⟩,
+                          ⟨"csX", "senX", ⟨1, 0, 3⟩, ⟨-4/5, 0, 0, -3/5⟩⟩] } = .error "ZeroDivisionError" := by
+  decide +kernel
+example : isTlrCamera "CAM_TRAFFIC_LIGHT_NEAR" = true ∧ isTlrCamera "CAM_TRAFFIC_LIGHT" = true ∧
+    isTlrCamera "CAM_FRONT" = false := by decide +kernel
+
+-- FP_VALIDATION rejects the example (a bus is not a false positive)
+example : (sampleToFrame exTables ⟨false, "MAP", false, true⟩ 1 exS1) = .error "ValueError" := by decide +kernel
+
+-- 2-D: hypotheses of `load2d_total`, the cameras found, ROIs, uuids, the merge
+example : WellFormed2D exTables2D := exTables2D_wellFormed
+example : (camerasOf exTables2D "s0" ["CAM_BACK", "CAM_TRAFFIC_LIGHT_NEAR", "CAM_FRONT"]).map (·.1) =
+    ["CAM_TRAFFIC_LIGHT_NEAR", "CAM_FRONT"] := by decide +kernel
+example : ((sampleToFrame2D exTables2D ⟨"DETECTION2D", "traffic_light", false, ["CAM_FRONT", "CAM_TRAFFIC_LIGHT_NEAR"]⟩ 0 exS0
+      ).toOption.map (fun f => f.objects.map (fun o => (o.uuid, o.frame, o.roi)))) =
+    some [("123", "CAM_FRONT", some ⟨10, 20, 100, -23⟩), ("123", "CAM_TRAFFIC_LIGHT_NEAR", some ⟨0, 0, 5, 5⟩),
+          ("77", "CAM_TRAFFIC_LIGHT_NEAR", some ⟨1, 2, 2, 2⟩), ("77", "CAM_FRONT", some ⟨1, 1, 1, 1⟩)] := by
+  decide +kernel
+example : ((sampleToFrame2D exTables2D ⟨"CLASSIFICATION2D", "traffic_light", false, ["CAM_FRONT", "CAM_TRAFFIC_LIGHT_NEAR"]⟩ 0 exS0
+      ).toOption.map (fun f => f.objects.map (fun o => (o.uuid, o.frame, o.roi, o.name)))) =
+    some [("123", "CAM_TRAFFIC_LIGHT", none, "green"), ("77", "CAM_TRAFFIC_LIGHT", none, "red_left")] := by
+  decide +kernel
+example : ((sampleToFrame2D exTables2D ⟨"TRACKING2D", "autoware", true, ["CAM_FRONT"]⟩ 0 exS0
+      ).toOption.map (fun f => (f.objects.map (fun o => (o.uuid, o.label, o.attributes)), f.ego2map.isSome))) =
+    some ([("j0", "UNKNOWN", ["vehicle.moving"]), ("j3", "UNKNOWN", [])], true) := by decide +kernel
+example : truncInt (-7 / 2) = -3 ∧ truncInt (1109 / 10) = 110 ∧ lastSegment "a::b:" = "" ∧ lastSegment "77" = "77" := by
+  decide +kernel
 
 end PEval.C16
